@@ -70,31 +70,34 @@ Record conn := {
   c_ongoing : list N;
   c_got_settings : bool;       (* got_peer_settings *)
   c_recv_closing : option N;   (* recv_closing *)
-  c_conn_error : bool }.       (* a connection error was raised (the connection is closed; h3 polls nothing any more) *)
+  c_conn_error : bool;         (* a connection error was raised (the connection is closed; h3 polls nothing any more) *)
+  c_ctl_stopped : bool }.      (* the peer sent STOP_SENDING for our control stream: the next write on it fails *)
 
 Definition upd_streams (c : conn) (ss : list sstate) : conn :=
-  {| c_server := c_server c; c_streams := ss; c_handles := c_handles c; c_control := c_control c; c_grease_frame := c_grease_frame c; c_grease_stream := c_grease_stream c; c_grease_id := c_grease_id c; c_closing := c_closing c; c_sent_closing := c_sent_closing c; c_last_accepted := c_last_accepted c; c_next_uni := c_next_uni c; c_next_bidi := c_next_bidi c; c_ongoing := c_ongoing c; c_got_settings := c_got_settings c; c_recv_closing := c_recv_closing c; c_conn_error := c_conn_error c |}.
+  {| c_server := c_server c; c_streams := ss; c_handles := c_handles c; c_control := c_control c; c_grease_frame := c_grease_frame c; c_grease_stream := c_grease_stream c; c_grease_id := c_grease_id c; c_closing := c_closing c; c_sent_closing := c_sent_closing c; c_last_accepted := c_last_accepted c; c_next_uni := c_next_uni c; c_next_bidi := c_next_bidi c; c_ongoing := c_ongoing c; c_got_settings := c_got_settings c; c_recv_closing := c_recv_closing c; c_conn_error := c_conn_error c; c_ctl_stopped := c_ctl_stopped c |}.
 Definition set_handles (c : conn) (hs : list handle) : conn :=
-  {| c_server := c_server c; c_streams := c_streams c; c_handles := hs; c_control := c_control c; c_grease_frame := c_grease_frame c; c_grease_stream := c_grease_stream c; c_grease_id := c_grease_id c; c_closing := c_closing c; c_sent_closing := c_sent_closing c; c_last_accepted := c_last_accepted c; c_next_uni := c_next_uni c; c_next_bidi := c_next_bidi c; c_ongoing := c_ongoing c; c_got_settings := c_got_settings c; c_recv_closing := c_recv_closing c; c_conn_error := c_conn_error c |}.
+  {| c_server := c_server c; c_streams := c_streams c; c_handles := hs; c_control := c_control c; c_grease_frame := c_grease_frame c; c_grease_stream := c_grease_stream c; c_grease_id := c_grease_id c; c_closing := c_closing c; c_sent_closing := c_sent_closing c; c_last_accepted := c_last_accepted c; c_next_uni := c_next_uni c; c_next_bidi := c_next_bidi c; c_ongoing := c_ongoing c; c_got_settings := c_got_settings c; c_recv_closing := c_recv_closing c; c_conn_error := c_conn_error c; c_ctl_stopped := c_ctl_stopped c |}.
 Definition set_ongoing (c : conn) (l : list N) : conn :=
-  {| c_server := c_server c; c_streams := c_streams c; c_handles := c_handles c; c_control := c_control c; c_grease_frame := c_grease_frame c; c_grease_stream := c_grease_stream c; c_grease_id := c_grease_id c; c_closing := c_closing c; c_sent_closing := c_sent_closing c; c_last_accepted := c_last_accepted c; c_next_uni := c_next_uni c; c_next_bidi := c_next_bidi c; c_ongoing := l; c_got_settings := c_got_settings c; c_recv_closing := c_recv_closing c; c_conn_error := c_conn_error c |}.
+  {| c_server := c_server c; c_streams := c_streams c; c_handles := c_handles c; c_control := c_control c; c_grease_frame := c_grease_frame c; c_grease_stream := c_grease_stream c; c_grease_id := c_grease_id c; c_closing := c_closing c; c_sent_closing := c_sent_closing c; c_last_accepted := c_last_accepted c; c_next_uni := c_next_uni c; c_next_bidi := c_next_bidi c; c_ongoing := l; c_got_settings := c_got_settings c; c_recv_closing := c_recv_closing c; c_conn_error := c_conn_error c; c_ctl_stopped := c_ctl_stopped c |}.
 Definition set_grease_frame (c : conn) (b : bool) : conn :=
-  {| c_server := c_server c; c_streams := c_streams c; c_handles := c_handles c; c_control := c_control c; c_grease_frame := b; c_grease_stream := c_grease_stream c; c_grease_id := c_grease_id c; c_closing := c_closing c; c_sent_closing := c_sent_closing c; c_last_accepted := c_last_accepted c; c_next_uni := c_next_uni c; c_next_bidi := c_next_bidi c; c_ongoing := c_ongoing c; c_got_settings := c_got_settings c; c_recv_closing := c_recv_closing c; c_conn_error := c_conn_error c |}.
+  {| c_server := c_server c; c_streams := c_streams c; c_handles := c_handles c; c_control := c_control c; c_grease_frame := b; c_grease_stream := c_grease_stream c; c_grease_id := c_grease_id c; c_closing := c_closing c; c_sent_closing := c_sent_closing c; c_last_accepted := c_last_accepted c; c_next_uni := c_next_uni c; c_next_bidi := c_next_bidi c; c_ongoing := c_ongoing c; c_got_settings := c_got_settings c; c_recv_closing := c_recv_closing c; c_conn_error := c_conn_error c; c_ctl_stopped := c_ctl_stopped c |}.
 (* grease stream bookkeeping: flag, stream in flight, next uni id *)
 Definition set_grease_stream (c : conn) (flag : bool) (inflight : option N) (next_uni : N) : conn :=
-  {| c_server := c_server c; c_streams := c_streams c; c_handles := c_handles c; c_control := c_control c; c_grease_frame := c_grease_frame c; c_grease_stream := flag; c_grease_id := inflight; c_closing := c_closing c; c_sent_closing := c_sent_closing c; c_last_accepted := c_last_accepted c; c_next_uni := next_uni; c_next_bidi := c_next_bidi c; c_ongoing := c_ongoing c; c_got_settings := c_got_settings c; c_recv_closing := c_recv_closing c; c_conn_error := c_conn_error c |}.
+  {| c_server := c_server c; c_streams := c_streams c; c_handles := c_handles c; c_control := c_control c; c_grease_frame := c_grease_frame c; c_grease_stream := flag; c_grease_id := inflight; c_closing := c_closing c; c_sent_closing := c_sent_closing c; c_last_accepted := c_last_accepted c; c_next_uni := next_uni; c_next_bidi := c_next_bidi c; c_ongoing := c_ongoing c; c_got_settings := c_got_settings c; c_recv_closing := c_recv_closing c; c_conn_error := c_conn_error c; c_ctl_stopped := c_ctl_stopped c |}.
 Definition set_closing (c : conn) (sent : N) : conn :=
-  {| c_server := c_server c; c_streams := c_streams c; c_handles := c_handles c; c_control := c_control c; c_grease_frame := c_grease_frame c; c_grease_stream := c_grease_stream c; c_grease_id := c_grease_id c; c_closing := true; c_sent_closing := Some sent; c_last_accepted := c_last_accepted c; c_next_uni := c_next_uni c; c_next_bidi := c_next_bidi c; c_ongoing := c_ongoing c; c_got_settings := c_got_settings c; c_recv_closing := c_recv_closing c; c_conn_error := c_conn_error c |}.
+  {| c_server := c_server c; c_streams := c_streams c; c_handles := c_handles c; c_control := c_control c; c_grease_frame := c_grease_frame c; c_grease_stream := c_grease_stream c; c_grease_id := c_grease_id c; c_closing := true; c_sent_closing := Some sent; c_last_accepted := c_last_accepted c; c_next_uni := c_next_uni c; c_next_bidi := c_next_bidi c; c_ongoing := c_ongoing c; c_got_settings := c_got_settings c; c_recv_closing := c_recv_closing c; c_conn_error := c_conn_error c; c_ctl_stopped := c_ctl_stopped c |}.
 Definition set_last_accepted (c : conn) (l : N) : conn :=
-  {| c_server := c_server c; c_streams := c_streams c; c_handles := c_handles c; c_control := c_control c; c_grease_frame := c_grease_frame c; c_grease_stream := c_grease_stream c; c_grease_id := c_grease_id c; c_closing := c_closing c; c_sent_closing := c_sent_closing c; c_last_accepted := Some l; c_next_uni := c_next_uni c; c_next_bidi := c_next_bidi c; c_ongoing := c_ongoing c; c_got_settings := c_got_settings c; c_recv_closing := c_recv_closing c; c_conn_error := c_conn_error c |}.
+  {| c_server := c_server c; c_streams := c_streams c; c_handles := c_handles c; c_control := c_control c; c_grease_frame := c_grease_frame c; c_grease_stream := c_grease_stream c; c_grease_id := c_grease_id c; c_closing := c_closing c; c_sent_closing := c_sent_closing c; c_last_accepted := Some l; c_next_uni := c_next_uni c; c_next_bidi := c_next_bidi c; c_ongoing := c_ongoing c; c_got_settings := c_got_settings c; c_recv_closing := c_recv_closing c; c_conn_error := c_conn_error c; c_ctl_stopped := c_ctl_stopped c |}.
 Definition set_next_bidi (c : conn) (n : N) : conn :=
-  {| c_server := c_server c; c_streams := c_streams c; c_handles := c_handles c; c_control := c_control c; c_grease_frame := c_grease_frame c; c_grease_stream := c_grease_stream c; c_grease_id := c_grease_id c; c_closing := c_closing c; c_sent_closing := c_sent_closing c; c_last_accepted := c_last_accepted c; c_next_uni := c_next_uni c; c_next_bidi := n; c_ongoing := c_ongoing c; c_got_settings := c_got_settings c; c_recv_closing := c_recv_closing c; c_conn_error := c_conn_error c |}.
+  {| c_server := c_server c; c_streams := c_streams c; c_handles := c_handles c; c_control := c_control c; c_grease_frame := c_grease_frame c; c_grease_stream := c_grease_stream c; c_grease_id := c_grease_id c; c_closing := c_closing c; c_sent_closing := c_sent_closing c; c_last_accepted := c_last_accepted c; c_next_uni := c_next_uni c; c_next_bidi := n; c_ongoing := c_ongoing c; c_got_settings := c_got_settings c; c_recv_closing := c_recv_closing c; c_conn_error := c_conn_error c; c_ctl_stopped := c_ctl_stopped c |}.
 Definition set_got_settings (c : conn)  : conn :=
-  {| c_server := c_server c; c_streams := c_streams c; c_handles := c_handles c; c_control := c_control c; c_grease_frame := c_grease_frame c; c_grease_stream := c_grease_stream c; c_grease_id := c_grease_id c; c_closing := c_closing c; c_sent_closing := c_sent_closing c; c_last_accepted := c_last_accepted c; c_next_uni := c_next_uni c; c_next_bidi := c_next_bidi c; c_ongoing := c_ongoing c; c_got_settings := true; c_recv_closing := c_recv_closing c; c_conn_error := c_conn_error c |}.
+  {| c_server := c_server c; c_streams := c_streams c; c_handles := c_handles c; c_control := c_control c; c_grease_frame := c_grease_frame c; c_grease_stream := c_grease_stream c; c_grease_id := c_grease_id c; c_closing := c_closing c; c_sent_closing := c_sent_closing c; c_last_accepted := c_last_accepted c; c_next_uni := c_next_uni c; c_next_bidi := c_next_bidi c; c_ongoing := c_ongoing c; c_got_settings := true; c_recv_closing := c_recv_closing c; c_conn_error := c_conn_error c; c_ctl_stopped := c_ctl_stopped c |}.
 Definition set_recv_closing (c : conn) (id : N) : conn :=
-  {| c_server := c_server c; c_streams := c_streams c; c_handles := c_handles c; c_control := c_control c; c_grease_frame := c_grease_frame c; c_grease_stream := c_grease_stream c; c_grease_id := c_grease_id c; c_closing := true; c_sent_closing := c_sent_closing c; c_last_accepted := c_last_accepted c; c_next_uni := c_next_uni c; c_next_bidi := c_next_bidi c; c_ongoing := c_ongoing c; c_got_settings := c_got_settings c; c_recv_closing := Some id; c_conn_error := c_conn_error c |}.
+  {| c_server := c_server c; c_streams := c_streams c; c_handles := c_handles c; c_control := c_control c; c_grease_frame := c_grease_frame c; c_grease_stream := c_grease_stream c; c_grease_id := c_grease_id c; c_closing := true; c_sent_closing := c_sent_closing c; c_last_accepted := c_last_accepted c; c_next_uni := c_next_uni c; c_next_bidi := c_next_bidi c; c_ongoing := c_ongoing c; c_got_settings := c_got_settings c; c_recv_closing := Some id; c_conn_error := c_conn_error c; c_ctl_stopped := c_ctl_stopped c |}.
 Definition set_conn_error (c : conn)  : conn :=
-  {| c_server := c_server c; c_streams := c_streams c; c_handles := c_handles c; c_control := c_control c; c_grease_frame := c_grease_frame c; c_grease_stream := c_grease_stream c; c_grease_id := c_grease_id c; c_closing := c_closing c; c_sent_closing := c_sent_closing c; c_last_accepted := c_last_accepted c; c_next_uni := c_next_uni c; c_next_bidi := c_next_bidi c; c_ongoing := c_ongoing c; c_got_settings := c_got_settings c; c_recv_closing := c_recv_closing c; c_conn_error := true |}.
+  {| c_server := c_server c; c_streams := c_streams c; c_handles := c_handles c; c_control := c_control c; c_grease_frame := c_grease_frame c; c_grease_stream := c_grease_stream c; c_grease_id := c_grease_id c; c_closing := c_closing c; c_sent_closing := c_sent_closing c; c_last_accepted := c_last_accepted c; c_next_uni := c_next_uni c; c_next_bidi := c_next_bidi c; c_ongoing := c_ongoing c; c_got_settings := c_got_settings c; c_recv_closing := c_recv_closing c; c_conn_error := true; c_ctl_stopped := c_ctl_stopped c |}.
+Definition set_ctl_stopped (c : conn)  : conn :=
+  {| c_server := c_server c; c_streams := c_streams c; c_handles := c_handles c; c_control := c_control c; c_grease_frame := c_grease_frame c; c_grease_stream := c_grease_stream c; c_grease_id := c_grease_id c; c_closing := c_closing c; c_sent_closing := c_sent_closing c; c_last_accepted := c_last_accepted c; c_next_uni := c_next_uni c; c_next_bidi := c_next_bidi c; c_ongoing := c_ongoing c; c_got_settings := c_got_settings c; c_recv_closing := c_recv_closing c; c_conn_error := c_conn_error c; c_ctl_stopped := true |}.
 
 Fixpoint has_stream (ss : list sstate) (id : N) : bool :=
   match ss with [] => false | s :: r => (s_id s =? id) || has_stream r id end.
@@ -169,7 +172,7 @@ Definition setup (server : bool) (cfg : config) (g : N) : res unit (option conn)
                    c_closing := false;
                    c_sent_closing := None; c_last_accepted := None;
                    c_next_uni := first_uni + 12; c_next_bidi := (if server then 1 else 0); c_ongoing := [];
-                   c_got_settings := false; c_recv_closing := None; c_conn_error := false |} in
+                   c_got_settings := false; c_recv_closing := None; c_conn_error := false; c_ctl_stopped := false |} in
       match res_bind (res_bind (setup_write first_uni es 0 c0) (setup_write first_uni es 2)) (setup_write first_uni es 1) with
       | Ok c => Ok (Some c)
       | Err e => Err e
@@ -209,6 +212,7 @@ Inductive op :=
 | OFinish (h : N) (g : N)
 | OStop (h : N)
 | OStopSending (h : N)                (* the peer sends STOP_SENDING for the stream of handle h *)
+| OStopControl                        (* the peer sends STOP_SENDING for our control stream *)
 | ODrop (h : N)
 | OShutdown (n : N).
 
@@ -240,6 +244,7 @@ Definition inner_shutdown (c : conn) (max_id : N) : res unit conn :=
   (* a connection that already failed reports that error: nothing is written, nothing recorded *)
   if shutdown_checks_conn_error && c_conn_error c then Ok c else
   if match c_sent_closing c with Some s => cmp_skip s max_id | None => false end then Ok c
+  else if c_ctl_stopped c then Ok (set_conn_error (set_closing c max_id))   (* the write fails: H3_CLOSED_CRITICAL_STREAM *)
   else if shutdown_frame_is_goaway
        then write_to (set_closing c max_id) (c_control c) (wb_from_frame (FGoaway max_id)) None
        else Panic 42.
@@ -404,6 +409,7 @@ Definition step (c : conn) (o : op) : res unit conn :=
       | None => Ok c
       end
   | OStop h => Ok c
+  | OStopControl => Ok (set_ctl_stopped c)
   | OStopSending h =>
       match live_handle c h with
       | Some _ => Ok (set_handles c (map_nth stop_handle h (c_handles c)))
